@@ -2,6 +2,9 @@
 from .common import *  # noqa
 
 KEYS = {"infectious_multipliers", "flow_rates"}
+# observations whose model value is the property's specified value (a disagreement there is a failing input);
+# on the others the correspondence supports the tie and the oracle searches for the failing input
+SPEC_KEYS = {"infectious_multipliers", "flow_rates"}
 
 
 def run(tier, seed):
